@@ -123,6 +123,21 @@ class C18(Prop):
         self.cl, self.rs, self.nu = cl, rs, nu
         self.Chaperone = Chaperone
         self.LLMResponse = LLMResponse
+        from operon_ai.providers import base as pb
+        self.LIB_ERR = {"u": pb.ProviderUnavailableError, "q": pb.QuotaExhaustedError,
+                        "t": pb.TranscriptionFailedError, "e": pb.NucleusError}
+        # nothing may stall: the nucleus module's `time` is replaced by a recorder (sleep returns at once)
+        import time as _time
+        prop = self
+        prop.sleeps = []
+
+        class _Time:
+            def __getattr__(self, k):
+                return getattr(_time, k)
+
+            def sleep(self, s):
+                prop.sleeps.append(s)
+        nu.time = _Time()
 
         class S(BaseModel):
             x: int
@@ -201,10 +216,10 @@ class C18(Prop):
         fam = rng.choice(["forever", "forever", "stopat", "none", "raise", "random"])
         k = rng.randint(0, n)
         ps = {"forever": rng.choice("1123"), "stopat": rng.choice("12") * k + rng.choice("0N"), "none": rng.choice("0N"),
-              "raise": "1" * k + "x", "random": "".join(rng.choice("01123Nx") for _ in range(n))}[fam]
-        ts = rng.choice(["o", "o", "f", "of", "o" * k + "x", "".join(rng.choice("ooofxbwngLUP") for _ in range(n)),
+              "raise": "1" * k + rng.choice("xxuqte"), "random": "".join(rng.choice("01123Nxu") for _ in range(n))}[fam]
+        ts = rng.choice(["o", "o", "f", "of", "o" * k + "x", "".join(rng.choice("ooofxubwngLUP") for _ in range(n)),
                          "b", "w", "n", "g", "L", "U", "P"])
-        cs = rng.choice(["r", "r", "r", "x"])
+        cs = rng.choice(["r", "r", "r", "x", "u", "q", "t", "e", "ur", "xr", "qqr"])
         return (f"tools {mi} {show_bool(rng.random() < 0.85)} {show_bool(rng.random() < 0.9)} "
                 f"{show_bool(rng.random() < 0.9)} {ps} {ts} {cs}")
 
@@ -250,13 +265,14 @@ class C18(Prop):
             for L in range(1, 5 if big else 4):
                 for ps in itertools.product("01x", repeat=L):
                     for ae in "10":
-                        tools.append({"lines": [f"tools {mi} {ae} 1 1 {''.join(ps)} o r"], "note": "exhaustive tools"})
+                        for cs in ("r", "u"):
+                            tools.append({"lines": [f"tools {mi} {ae} 1 1 {''.join(ps)} o {cs}"], "note": "exhaustive tools"})
         return [
             {"name": "heal: maxRetries 0..%d x all validator scripts over {invalid,valid,raise} / generator scripts over "
                      "{garbage,json,raise,empty} up to length maxRetries+2" % (3 if big else 2), "cases": heal},
             {"name": "swarm: maxRegen 0..2 x maxSteps 0..3 x step scripts over {unique,same,marker,raise} x 2 thresholds",
              "cases": swarm},
-            {"name": "tools: maxIter 0..3 x provider scripts over {no calls, one call, raise} x auto_execute", "cases": tools},
+            {"name": "tools: maxIter 0..3 x provider scripts over {no calls, one call, raise} x auto_execute x final completion {ok, raises ProviderUnavailableError}", "cases": tools},
         ]
 
     # --- implementation: heal ------------------------------------------------------------------------------------
@@ -492,6 +508,13 @@ class C18(Prop):
         evs = []
         cnt = {"p": 0, "e": 0, "c": 0}
         LLMResponse = self.LLMResponse
+        own = []             # exception objects the adversary itself raised
+        LIB = self.LIB_ERR
+
+        def boom(item, what):
+            e = LIB[item](what) if item in LIB else AdvError(what)
+            own.append(e)
+            return e
 
         def view(prompt):
             return show_ns(nonces(prompt))
@@ -518,9 +541,9 @@ class C18(Prop):
                 cnt["c"] += 1
                 if i >= CAP:
                     raise Runaway("complete")
-                if pick(cs, i, "r") == "x":
+                if pick(cs, i, "r") in "xuqte":
                     evs.append(("C", view(prompt), "x"))
-                    raise AdvError("complete")
+                    raise boom(pick(cs, i, "r"), "complete")
                 evs.append(("C", view(prompt), "r"))
                 r = LLMResponse(f"final {i}", "m", 1, 1.0)
                 r.rid = 2000 + i
@@ -533,9 +556,9 @@ class C18(Prop):
                 if i >= CAP:
                     raise Runaway("provider")
                 item = pick(ps, i, "1")
-                if item == "x":
+                if item in "xuqte":
                     evs.append(("T", view(prompt), "x"))
-                    raise AdvError("provider")
+                    raise boom(item, "provider")
                 r = LLMResponse(f"round {i}", "m", 1, 1.0)
                 r.rid = 1000 + i
                 if item.isdigit():
@@ -553,9 +576,9 @@ class C18(Prop):
                 e = cnt["e"]
                 cnt["e"] += 1
                 item = pick(ts, e, "o")
-                if item == "x":
+                if item in "xu":
                     evs.append(("E", str(call.cid), "x"))
-                    raise AdvError("tool")
+                    raise boom(item, "tool")
                 if item in ("f", "g"):
                     evs.append(("E", str(call.cid), "f"))
                     return Res(call.id, f"<{800 + e}>", False, f"<{100 + e}>" if item == "f" else "")
@@ -572,9 +595,10 @@ class C18(Prop):
             exc = e
         log = "[" + ",".join(f"{view(x.prompt)}:{getattr(x.response, 'rid', '?')}" for x in nuc.transcription_log) + "]"
         es = "[" + ",".join(f"{k}{a}:{b}" for (k, a, b) in evs) + "]"
-        info = {"kind": "tools", "mi": mi, "evs": evs, "res": res, "exc": exc}
+        mine = exc is not None and (isinstance(exc, AdvError) or any(exc is e for e in own))
+        info = {"kind": "tools", "mi": mi, "evs": evs, "res": res, "exc": None if mine else exc, "raised": exc}
         if exc is not None:
-            r = "raise" if isinstance(exc, AdvError) else f"raise:{type(exc).__name__}"
+            r = "raise" if mine else f"raise:{type(exc).__name__}"
         else:
             r = f"ok {getattr(res, 'rid', '?')}"
         return f"{r} log={log} evs={es}", info
@@ -773,6 +797,8 @@ class C18(Prop):
             V("tool_loop_rounds_le_max", f"<= {max(0, mi)} tool rounds", rounds)
         if finals > 1:
             V("tool_loop_one_final_completion", "<= 1 plain completion", finals)
+        if rounds + finals > max(0, mi) + 1:      # every provider call counts, whatever any of them raised
+            V("tool_loop_provider_calls_le_max_plus_one", f"<= {max(0, mi) + 1} provider calls", rounds + finals)
         if finals and evs[-1][0] != "C":
             V("tool_loop_final_completion_is_last", "nothing after the final completion", evs[-1])
         # executions happen only inside a round
